@@ -185,10 +185,15 @@ class Dem:
             else:
                 # same kind of scale factor (scalar / range) with other values, the intended ones assigned afterwards
                 import copy as _copy
-                op = DEM(F=other_F(F), gamma=case["gamma"], de_repair=rep_arg, n_diffs=(n_par - 1) // 2)
+                from pymoode.operators import dem as _dm2
+                other_rep = "to-bounds" if (case["repair"] or "bounce-back") != "to-bounds" else "midway"
+                reassign_rep = case.get("repair_as") == "name" and bounded
+                op = DEM(F=other_F(F), gamma=case["gamma"], de_repair=other_rep if reassign_rep else rep_arg, n_diffs=(n_par - 1) // 2)
                 if setup == "copy-assign":
                     op = _copy.deepcopy(op)
                 op.F = F
+                if reassign_rep:
+                    op.de_repair = _dm2.REPAIRS[rep_arg]         # the operator is re-configured: another repair function
                 rec.tags.add("setup:" + setup)
             if case.get("rival") and case.get("repair_as") != "bad-name":
                 rg = case["gamma"]
@@ -998,6 +1003,8 @@ class Variant:
                    # the object that is used is a copy of the one that was built (minimize() deep-copies the algorithm)
                    "copied": ["", "", "deepcopy", "pickle"][rng.randint(4)],
                    "vtype_int": bool(rng.randint(5) == 0),
+                   # a pymoo Repair operator handed over through `repair=` (one that does not touch the values)
+                   "repair_kw": bool(rng.randint(4) == 0),
                    "xl": xl, "xu": xu, "PX": PX, "seed": int(rng.randint(2**31 - 1))}
 
     @staticmethod
@@ -1011,7 +1018,7 @@ class Variant:
         from pymoo.core.population import Population
         from pymoo.operators.mutation.pm import PM
         from pymoode.operators.variant import DifferentialVariant
-        cfgk = ("sel", "y", "cross", "CR", "F", "gamma", "repair", "pm", "ranks", "entry", "warm", "seed", "algo_cls", "copied", "vtype_int")
+        cfgk = ("sel", "y", "cross", "CR", "F", "gamma", "repair", "pm", "ranks", "entry", "warm", "seed", "algo_cls", "copied", "vtype_int", "repair_kw")
         rec = Record("variant", {k: case.get(k) for k in cfgk}, {k: case[k] for k in ("xl", "xu", "PX")})
         PX = np.array(case["PX"], dtype=float, copy=True)
         n, d = PX.shape
@@ -1026,6 +1033,10 @@ class Variant:
         F = tuple(case["F"]) if isinstance(case["F"], list) else case["F"]
         sink = {}
         kw = dict(variant=vs, CR=case["CR"], F=F, gamma=case["gamma"], de_repair=case["repair"] or "bounce-back")
+        if case.get("repair_kw"):
+            import userops
+            kw["repair"] = userops.NoOpRepair()
+            rec.tags.add("repair-keyword")
         if case["pm"]:
             # also through the deprecated keyword names (`pm=`, `mutation=`), which must behave identically
             key = ["genetic_mutation", "pm", "mutation"][case["seed"] % 3]
